@@ -3,6 +3,7 @@ from cfgcommon import COMMON_ASSUME, twin_job, twin_text, TWIN_TECHNIQUE
 CFG = {
 "level": "model_checking",
 "technique": "bounded-exhaustive enumeration of basis/lattice families against textbook references (interpolation argument for the (bi)linear and polynomial forms)" + TWIN_TECHNIQUE,
+"level_text_more": 'Almost-special matrices (columns / rows from 14 unit and non-unit vectors, every ordered triple, 2 translations, 3 bottom rows) under the determinant, inverse and product laws; the size-ladder rungs 4095..32769 also on 1,3,5,7,17,24,40,64 processors.',
 "jobs": [{"variant": "plain-c17", "id": "C17", "share": 0.85}, twin_job("C17T")],
 "engine": "enum",
 "engines": ["enum", "sched"],
